@@ -132,7 +132,13 @@ fn unhex(s: &str) -> Vec<u8> {
 }
 
 fn fixture_check(metric: Metric, report: &mut Report) -> Option<(usize, usize)> {
-    let path = crate::common::verif_root().join("fixtures").join(format!("{}.json", metric.short()));
+    fixture_check_file(metric, metric.short(), true, report)
+}
+
+/// `judge_exact`: after the incremental update, also compare exhaustive queries with the f64 definition
+/// (not for the small-magnitude fixture, whose norm products the reference treats as vanishing).
+fn fixture_check_file(metric: Metric, stem: &str, judge_exact: bool, report: &mut Report) -> Option<(usize, usize)> {
+    let path = crate::common::verif_root().join("fixtures").join(format!("{stem}.json"));
     let text = match std::fs::read_to_string(&path) {
         Ok(t) => t,
         Err(e) => {
@@ -145,9 +151,9 @@ fn fixture_check(metric: Metric, report: &mut Report) -> Option<(usize, usize)> 
     let kv: Kv = fx["kv"].as_array().unwrap().iter().map(|p| (unhex(p[0].as_str().unwrap()), unhex(p[1].as_str().unwrap()))).collect();
     let fail = |report: &mut Report, clause: &str, msg: String| {
         report.add_violation(Violation {
-            signature: format!("{clause}:{}", metric.short()),
-            what: format!("fixture {}: {msg}", metric.short()),
-            replay: json!({"engine": "fixture", "metric": metric.short()}),
+            signature: format!("{clause}:{stem}"),
+            what: format!("fixture {stem}: {msg}"),
+            replay: json!({"engine": "fixture", "metric": metric.short(), "fixture": stem}),
         });
     };
     let s = Scratch::new("fixture");
@@ -259,7 +265,9 @@ fn fixture_check(metric: Metric, report: &mut Report) -> Option<(usize, usize)> 
                 oracle::structure(&dix, &expect, metric, dim).map_err(|(c, m)| (format!("FX/after-update:{c}"), m))?;
                 let qv: Vec<Vec<u32>> = model.values().take(3).cloned().collect();
                 let mut wk = crate::explore::Worker { scratch: Scratch::new("fx2"), counters: Default::default(), samples: vec![] };
-                crate::hist::exact_search_on(metric, dim, *idx, s.db, &wtxn, model, &qv, &mut wk).map_err(|(c, m)| (format!("FX/after-update:{c}"), m))?;
+                if judge_exact {
+                    crate::hist::exact_search_on(metric, dim, *idx, s.db, &wtxn, model, &qv, &mut wk).map_err(|(c, m)| (format!("FX/after-update:{c}"), m))?;
+                }
             }
             wtxn.abort();
             Ok::<(usize, usize), (String, String)>((item_children, splits))
@@ -290,6 +298,10 @@ pub fn c16(tier: Tier) -> i32 {
             if let Some((ic, sp)) = fixture_check(m, &mut report) {
                 v.push((m, ic, sp));
             }
+        }
+        // an eighth fixture: cosine over coordinates of magnitude 1e-4 (norm products in (0, f32::EPSILON])
+        if let Some((ic, sp)) = fixture_check_file(Metric::Cosine, "cosine-small", false, &mut report) {
+            v.push((Metric::Cosine, ic, sp));
         }
         v
     });
